@@ -196,6 +196,30 @@ def _is_infinite_test(t, roles):
     return False
 
 
+def rule_one_clock(ctx, tab, rule="R3"):
+    """the delay is subtracted once and for all: after the not-started test every decision and every result depends on the
+    time argument only through S = time - delay (a cycle count or phase computed from the raw time is off by delay / D)"""
+    S = tab["S"]
+    mark = ("S",)
+    n = 0
+    for r in tab["rows"]:
+        if r.kind not in ("Active", "Ended"):
+            continue
+        n += 1
+        leaks = []
+        for (t, v, s_) in r.path.conds:
+            t2 = terms.subst(t, {S: mark})
+            if pse.contains(t2, TT.TIME) and t != pse.mk_bin("Lt", TT.TIME, TT.fld(tab["roles"]["delay"])):
+                leaks.append(show(t))
+        r2 = terms.subst(r.ret, {S: mark})
+        if pse.contains(r2, TT.TIME):
+            leaks.append("result " + show(r.ret))
+        ctx.ob(rule, "one-clock/" + r.label, not leaks,
+               "cycle number, phase and end test must all be computed from time - delay; the raw time is used in %s"
+               % leaks[:3], tab["body"]["span"], trace_of(r.path), what="raw-time-used")
+    ctx.floor(rule, "Active/Ended rows", n, 3)
+
+
 def rule_metadata(ctx, tab, rule="R5"):
     """configuration parameters flow into the same-meaning TimeScale fields and out of the getters"""
     F = ctx.facts
@@ -319,6 +343,7 @@ def check(ctx):
     rule_range(ctx, tab)
     rule_mirror(ctx, tab)
     rule_not_started(ctx, tab)
+    rule_one_clock(ctx, tab)
     rule_duration_formula(ctx, "R4", tab)
     rule_metadata(ctx, tab)
     ctx.notes.append("not decided: linear rise and exact periodicity as numeric relations over all f32 times")
